@@ -42,6 +42,8 @@ pub fn generate(em: &mut Emitter, seed: u64, thorough: bool) {
     let n = if thorough { 1500 } else { 120 };
     let decorators = ["debug.stack.4", "emit.7", "trace.3", "debug.mem.1.2", "debug.stack"];
     let (mut hints, mut dbg, mut steps, mut clks) = (0u64, 0u64, 0u64, 0u64);
+    let mut trace_rows_checked = 0u64;
+    let mut early_overflow = 0u64;
     for i in 0..n {
         let d = rng.below(3) as u32;
         let l = 1 + rng.below(4) as usize;
@@ -113,6 +115,80 @@ pub fn generate(em: &mut Emitter, seed: u64, thorough: bool) {
                     s.memory.iter().map(|(a, w)| (*a, w.iter().map(|f| f.as_int()).collect::<Vec<_>>())).collect::<Vec<_>>()));
                 if fwd.len() > 3000 { break; }
             }
+            // the forward states agree with the rows of the execution trace (stack top 16, depth,
+            // fmp, ctx): state at clock t = row t of the main segment
+            let trace_res = std::panic::catch_unwind(std::panic::AssertUnwindSafe(|| {
+                processor::execute(&p, StackInputs::try_from_values({ let mut v = st.clone(); v.reverse(); v }).unwrap(), ReplayHost::new(r.tape.clone()), processor::ExecutionOptions::default())
+            }));
+            if let Ok(Ok(trace)) = trace_res {
+                use winter_prover::Trace;
+                let ms = trace.main_segment();
+                let nrows = ms.num_rows();
+                // overflow elements of ALL contexts in push order, reconstructed from the trace rows:
+                // g[t] = list after the first t operations
+                let opcode_at = |t: usize| -> u8 {
+                    let mut v = 0u8;
+                    for b in 0..7 {
+                        if ms.get(air::trace::DECODER_TRACE_OFFSET + 1 + b, t).as_int() == 1 {
+                            v |= 1 << b;
+                        }
+                    }
+                    v
+                };
+                let b0 = |t: usize| ms.get(air::trace::STACK_TRACE_OFFSET + 16, t).as_int() as i64;
+                let mut g: Vec<Vec<u64>> = vec![st.iter().skip(16).rev().copied().collect()];
+                let last = trace.trace_len_summary().main_trace_len().min(nrows - 2);
+                for t in 0..last {
+                    let mut cur = g[t].clone();
+                    let opc = opcode_at(t);
+                    let delta = b0(t + 1) - b0(t);
+                    let ctx_switch = matches!(opc, 104 | 108 | 88) || (opc == 112 && delta != -1);
+                    if !ctx_switch {
+                        if delta == 1 {
+                            cur.push(ms.get(air::trace::STACK_TRACE_OFFSET + 15, t).as_int());
+                        } else if delta == -1 {
+                            cur.pop();
+                        }
+                    }
+                    g.push(cur);
+                }
+                let mut it2 = processor::execute_iter(&p, StackInputs::try_from_values({ let mut v = st.clone(); v.reverse(); v }).unwrap(), ReplayHost::new(r.tape.clone()));
+                let mut checked = 0;
+                while let Some(Ok(s)) = it2.next() {
+                    let t = u32::from(s.clk) as usize;
+                    if t + 1 >= g.len() || checked > 2000 {
+                        break;
+                    }
+                    checked += 1;
+                    let row_stack: Vec<u64> = (0..16).map(|i| ms.get(air::trace::STACK_TRACE_OFFSET + i, t).as_int()).collect();
+                    let it_stack: Vec<u64> = s.stack.iter().take(16).map(|f| f.as_int()).collect();
+                    let it_over: Vec<u64> = s.stack.iter().skip(16).map(|f| f.as_int()).collect();
+                    let fmp = ms.get(air::trace::FMP_COL_IDX, t).as_int();
+                    let ctx = ms.get(air::trace::CTX_COL_IDX, t).as_int();
+                    let same_top = row_stack[..it_stack.len().min(16)] == it_stack[..] && fmp == s.fmp.as_int() && ctx == u32::from(s.ctx) as u64;
+                    // what the trace holds at row t: the overflow elements of the current context
+                    let visible = (b0(t) - 16).max(0) as usize;
+                    let want_now: Vec<u64> = g[t].iter().rev().take(visible).copied().collect();
+                    // what the pinned implementation reports (recorded finding): the overflow elements
+                    // of all contexts after the operation executed at clock t
+                    let want_quirk: Vec<u64> = g[t + 1].iter().rev().copied().collect();
+                    if !same_top || (it_over != want_now && it_over != want_quirk) {
+                        em.oracle_failures.push(format!(
+                            "C14 step iterator state at clock {} differs from trace row {}: `{}` stack={:?} :: iterator top {:?} overflow {:?} fmp {} ctx {} vs trace top {:?} overflow {:?} (or {:?}) fmp {} ctx {}",
+                            t, t, src, st, it_stack, it_over, s.fmp.as_int(), u32::from(s.ctx), row_stack, want_now, want_quirk, fmp, ctx));
+                        break;
+                    }
+                    if it_over != want_now {
+                        early_overflow += 1;
+                        if early_overflow == 1 {
+                            em.oracle_failures.push(format!(
+                                "C14 step iterator reports the overflow part of the stack one step early: at clock {} it lists {:?} below position 15 (the overflow elements of all contexts after the operation of clock {}), while trace row {} holds {:?} (top 16, fmp, ctx agree) in `{}`",
+                                t, it_over, t, t, want_now, &src[..src.len().min(120)]));
+                        }
+                    }
+                    trace_rows_checked += 1;
+                }
+            }
             // walk back a random distance and forward again
             let back = 1 + rng.below(fwd.len().max(2) as u64 - 1) as usize;
             let idx = fwd.len();
@@ -146,6 +222,8 @@ pub fn generate(em: &mut Emitter, seed: u64, thorough: bool) {
             }
         }
     }
+    em.stat("iterator_states_compared_with_trace_rows", trace_rows_checked);
+    em.stat("iterator_states_with_overflow_part_one_step_early", early_overflow);
     em.stat("clk_instructions_checked", clks);
     em.stat("hint_variants", hints);
     em.stat("debug_variants", dbg);
